@@ -216,6 +216,22 @@ func init() {
 		}
 		l.p("/-- `partition.JIterator.advanceChunk`: when the selector answers end of data the iterator keeps the position its chunk iterator stopped at (proposed repair of F59) -/")
 		l.p("def advanceKeepsIteratorPos : Bool := %s", leanBool(keepsIt))
+		contZero := true
+		for _, q := range [][3]string{{"pkg/backend/querier.go", "Querier", "Query"}, {"api/rpc/querier.go", "ServerQuerier", "query"}} {
+			fd := funcDecl(parseFile(q[0]), q[1], q[2])
+			if fd == nil {
+				problem("%s: %s.%s not found", q[0], q[1], q[2])
+				contZero = false
+				continue
+			}
+			ok, found := c03ContinuationOffsetZero(fd)
+			if !found {
+				problem("%s: %s.%s: the continuation request (writeQueryRequest / NextQueryRequest) was not recognised", q[0], q[1], q[2])
+			}
+			contZero = contZero && ok
+		}
+		l.p("/-- both query loops hand back a continuation request (NextQueryRequest) whose Offset is 0: the offset of the served request is applied once -/")
+		l.p("def continuationOffsetZero : Bool := %s", leanBool(contZero))
 		rechecks := false
 		if fd := cp.method("fiterator", "Get"); fd == nil {
 			problem("fiterator.Get not found")
